@@ -29,6 +29,9 @@ struct Case<'a, TC: ModelCfg> {
     leaves: &'a [MLeaf],
     root_hash: D32,
     desc: String,
+    db: &'a GateDb,
+    uni: &'a [Bits],
+    faults: bool,
     _tc: std::marker::PhantomData<TC>,
 }
 
@@ -118,6 +121,49 @@ async fn run_case<TC: ModelCfg>(c: &Case<'_, TC>, queries: &[Bits], rep: &Report
                         format!("{}/honest_nonmembership_generation_failed", TC::NAME),
                         json!({"set": c.desc, "query": q.show(), "error": format!("{e:?}")}),
                     );
+                }
+            }
+        }
+        // ---- proof generation with ONE failing storage read (every position): the generator errors or
+        // returns exactly the fault-free proof; a silently different proof describes a different tree
+        if c.faults && c.uni.contains(q) {
+            let ctl = &c.db.ctl;
+            ctl.arm(None);
+            let m0 = c.azks.get_membership_proof::<TC, _>(c.mgr, qn).await.ok();
+            let nm = ctl.disarm();
+            ctl.arm(None);
+            let n0 = c.azks.get_non_membership_proof::<TC, _>(c.mgr, qn).await.ok();
+            let nn = ctl.disarm();
+            for k in 0..nm {
+                rep.eval(1);
+                ctl.arm(Some(k));
+                let r = c.azks.get_membership_proof::<TC, _>(c.mgr, qn).await;
+                ctl.disarm();
+                if let Ok(p) = r {
+                    if Some(&p) != m0.as_ref() {
+                        rep.violation(
+                            format!("{}/proof_generated_under_read_fault_differs/membership", TC::NAME),
+                            json!({"set": c.desc, "query": q.show(), "failed_read": k, "of": nm, "returned_label": nl_bits(&p.label).show(), "siblings": p.sibling_proofs.len()}),
+                        );
+                    }
+                } else {
+                    rep.count("generation_refused_under_fault", 1);
+                }
+            }
+            for k in 0..nn {
+                rep.eval(1);
+                ctl.arm(Some(k));
+                let r = c.azks.get_non_membership_proof::<TC, _>(c.mgr, qn).await;
+                ctl.disarm();
+                if let Ok(p) = r {
+                    if Some(&p) != n0.as_ref() {
+                        rep.violation(
+                            format!("{}/proof_generated_under_read_fault_differs/nonmembership", TC::NAME),
+                            json!({"set": c.desc, "query": q.show(), "failed_read": k, "of": nn, "claimed_longest_prefix": nl_bits(&p.longest_prefix).show()}),
+                        );
+                    }
+                } else {
+                    rep.count("generation_refused_under_fault", 1);
                 }
             }
         }
@@ -335,7 +381,7 @@ fn run_cfg<TC: ModelCfg>(args: &Args, rep: &Report) {
                 return;
             }
             let desc = format!("{:?}{}", set, if two { "/2ep" } else { "/1ep" });
-            let case = Case::<TC> { azks: &azks, mgr: &mgr, tree: &tree, leaves: &leaves, root_hash, desc: desc.clone(), _tc: Default::default() };
+            let case = Case::<TC> { azks: &azks, mgr: &mgr, tree: &tree, leaves: &leaves, root_hash, desc: desc.clone(), db: &db, uni: &uni, faults: mask < 256, _tc: Default::default() };
             run_case(&case, queries, rep).await;
             if mask == 0b10110101 {
                 rep.sample(json!({"cfg": TC::NAME, "leaf_set": desc, "queries": queries.len(),
@@ -350,7 +396,7 @@ pub fn run(args: &Args) -> i32 {
     run_cfg::<W>(args, &rep);
     run_cfg::<E>(args, &rep);
     rep.finish(
-        "all 256 subsets of an 8-label universe whose members share exactly 0,1,7,8,9,254,255 leading bits with a base label (inserted over two epochs; thorough also one epoch) x 63+ query labels (universe + single-bit flips at bit 0,1,2,7,8,9,254,255): honest membership and non-membership proofs from the real generators, and adversarial candidates assembled from real nodes: every ancestor of the query as claimed longest prefix with real/swapped/emptied/grandchild children; every real leaf path with the label replaced and a direction, sibling label or path length altered; foreign leaf hashes and epochs. Oracle: verifies <=> statement true of the leaf set (non-membership additionally only from the deepest matching node). distinct = distinct (configuration, set, query) true non-membership statements verified",
+        "all 256 subsets of an 8-label universe whose members share exactly 0,1,7,8,9,254,255 leading bits with a base label (inserted over two epochs; thorough also one epoch) x 63+ query labels (universe + single-bit flips at bit 0,1,2,7,8,9,254,255): honest membership and non-membership proofs from the real generators, and adversarial candidates assembled from real nodes: every ancestor of the query as claimed longest prefix with real/swapped/emptied/grandchild children; every real leaf path with the label replaced and a direction, sibling label or path length altered; foreign leaf hashes and epochs; the real generators re-run with each single storage read failing (result: error, or exactly the fault-free proof). Oracle: verifies <=> statement true of the leaf set (non-membership additionally only from the deepest matching node). distinct = distinct (configuration, set, query) true non-membership statements verified",
         &["blake3 collision resistance", "verify_*_for_tests_only are thin wrappers of the production verifiers"],
     )
 }
